@@ -52,6 +52,20 @@ def run(tier, seed, replay_path=None):
         ck.obligations += 1
         ck.discharged += 1
         a, b = p.out
+        # memory: "need more bytes" is only ever answered for a body within the item limit (an oversized body is refused at
+        # header time and never accumulated in the connection buffer)
+        HD = D.H
+        for o in (a, b):
+            if o.tag == 'none':
+                def on_mem(m, where):
+                    from .C09 import scen_pair, native_outcome
+                    sa, sb, data, k = scen_pair(m)
+                    c = native_outcome(ck.replay([sa])[0])
+                    desc = f"header announces body_length {mval(m, HD.body)} > item limit {mval(m, D.limit)}: decode answers '{c['result']}' with {len(data)} bytes buffered " \
+                           f"(the connection would keep buffering up to the announced length)"
+                    return (True if c['result'] == 'none' and mval(m, HD.body) > mval(m, D.limit) and len(data) >= 24 else None), desc, sa
+                ck.obligation('decode: more bytes are awaited only for bodies within the item limit', p.pc,
+                              z3.Or(z3.ULT(D.total, 24), z3.ULE(HD.body, D.limit), o.consumed == 0), {}, on_mem, small)
         for ev in p.events:
             if ev[0] == 'reserve':
                 ck.obligation('decode:reserve-within-item-limit', p.pc, z3.ULE(ev[1], z3.ZeroExt(32, D.limit)), {}, None, small)
